@@ -601,6 +601,60 @@ def c03_member(key, max_atoms=None):
     return out
 
 
+def c03_member_asbuilt(key, k):
+    """the member of `key` as ASE builds it -- no rotation, no translation, no permutation; the lower slab starts on the cell
+    face z = 0 -- rattled with the member's noise, with the k-th further SBC seed.  Key: <key>:asbuilt:<k>."""
+    m = c03_member(key)
+    if not m.get("admitted"):
+        return m
+    _, lat, A, B, face, ls, reps, pbc, noise, seed = key.split(":")
+    lA, lB = [int(x) for x in ls.split("+")]
+    ideal, slabA, slabB, _ = build_stack(lat, A, B, face, lA, lB, int(reps.split("x")[0]), pbc)
+    rng = key_rng(key + ":asbuilt:%d" % k)
+    # build_stack centres the stack in its cell; ASE's builders put the lowest layer ON the face z = 0
+    ideal = ideal.copy()
+    p0 = ideal.get_positions()
+    p0[:, 2] -= p0[:, 2].min()
+    ideal.set_positions(p0)
+    at, order = present(ideal, rng, float(noise), rotate=False, translate=False, permute=False)
+    out = dict(m)
+    out["key"] = key + ":asbuilt:%d" % k
+    out["structure"] = to_dict(at)
+    out["slabs"] = [sorted(slabA), sorted(slabB)]
+    out["sbc_seed"] = rng.randrange(10 ** 6)
+    out["meta"] = dict(m["meta"], asbuilt=k)
+    return out
+
+
+def c03_member_superlattice(key, k):
+    """the two slabs of member `key` stacked PERIODICALLY without vacuum (cell height = stack height + the interface gap: both
+    interfaces at the bonding distance), as ASE builds it (lowest layer on the face z = 0, axes aligned), rattled by 0.03 A, with
+    the k-th further SBC seed.  Each slab is still a 2D object of one element; the expected answer is the two slabs.
+    Key: <key>:superlattice:<k>."""
+    m = c03_member(key)
+    if not m.get("admitted"):
+        return m
+    _, lat, A, B, face, ls, reps, pbc, noise, seed = key.split(":")
+    lA, lB = [int(x) for x in ls.split("+")]
+    ideal, slabA, slabB, meta = build_stack(lat, A, B, face, lA, lB, int(reps.split("x")[0]), "TTT")
+    at = ideal.copy()
+    p0 = at.get_positions()
+    p0[:, 2] -= p0[:, 2].min()
+    cell = np.array(at.get_cell())
+    cell[2] = [0.0, 0.0, float(p0[:, 2].max()) + 0.5 * (meta["dA"] + meta["dB"])]
+    at.set_cell(cell, scale_atoms=False)
+    at.set_positions(p0)
+    rng = key_rng(key + ":superlattice:%d" % k)
+    at2, order = present(at, rng, 0.03, rotate=False, translate=False, permute=False)
+    out = dict(m)
+    out["key"] = key + ":superlattice:%d" % k
+    out["structure"] = to_dict(at2)
+    out["slabs"] = [sorted(slabA), sorted(slabB)]
+    out["sbc_seed"] = rng.randrange(10 ** 6)
+    out["meta"] = dict(m["meta"], superlattice=k, pbc="TTT", noise=0.03)
+    return out
+
+
 def c03_keys_all(seeds=(0,)):
     keys = []
     for lat, A, B in c03_pairs():
